@@ -193,7 +193,7 @@ def check_lb(led):
         led.extra['paths'] = led.extra.get('paths', 0) + len(res)
 
 
-def check_panel_lb(led):
+def check_panel_lb(led, arguments_only=False):
     """Panel.lb (duplicate implementation): same obligations, plus the matrices it hands to the solver are the panel's own
     k0 / kG0 computed with the arguments the caller supplied"""
     func = 'compmech/panel/_panel.py:Panel.lb'
@@ -257,8 +257,9 @@ def check_panel_lb(led):
                     res2.append((path, ('return', (out[1][0], out[1][1]))))
                 else:
                     res2.append((path, out))
-            analyse_paths(led, it, log, res2, func, tag, 'k0', 'kG0', {'sigma': '1', 'which': 'SM', 'mode': 'cayley'}, 'eigh', 'eigsh',
-                          replay=replay_panel_small)
+            if not arguments_only:
+                analyse_paths(led, it, log, res2, func, tag, 'k0', 'kG0', {'sigma': '1', 'which': 'SM', 'mode': 'cayley'}, 'eigh', 'eigsh',
+                              replay=replay_panel_small)
             led.solver_time('z3-feasibility', it.solver_time)
             led.extra['paths'] = led.extra.get('paths', 0) + len(res)
 
